@@ -53,3 +53,14 @@ impl<T> NCWriteStream<T> {
         Arc::strong_count(&self.q)
     }
 }
+
+impl<T> NCReadStream<T> {
+    pub fn verif_locked(&self) -> bool {
+        self.q.0.is_locked()
+    }
+}
+impl<T> NCWriteStream<T> {
+    pub fn verif_locked(&self) -> bool {
+        self.q.0.is_locked()
+    }
+}
